@@ -957,7 +957,7 @@ func runWitness(c *mon.Case) {
 }
 
 func main() {
-	mon.SetNote("rule", "case = one generated alignment (1..14 rows; length drawn from the values on / next to every writer width 10, 50, 60, 80 and their multiples, up to 600, 2400 for files; nucleotide IUPAC codes incl. U or the 20 amino acids + B Z X, both cases, '-', '*', '?', '.' where representable; names from ten classes: plain, hostile punctuation, 9/10/11 characters, long, all-digit / signed, format delimiters, non ASCII, residue-like, shared prefixes, one character) whose alphabet goalign detected, written by goalign's writer and read back by goalign's parser, for each of the 13 (format, option) pairs in which it is representable; sub-checks: direct round trip (+ explicit alphabet, FASTA ParseUnalign, Nexus datatype), exhaustive keyword table, plain/.gz/.xz files through OpenWriteFile/GetReader/ReadAlign, streams of 1..5 Phylip alignments (ParseMultiple, repeated Parse, ParseMultiAlignmentsAuto), ParseAlignmentAuto, chains of 2..5 conversions returning to the first format. Non-trivial = at least 2 rows and the writer's text really cut a row into several lines/blocks (Nexus/Stockholm, which never wrap: at least 2 rows and 2 columns with one of '-', '*', '?'); distinct = (format, names, residues).")
+	mon.SetNote("rule", "case = one generated alignment (1..14 rows; length drawn from the values on / next to every writer width 10, 50, 60, 80 and their multiples, up to 600, 2400 for files; nucleotide IUPAC codes incl. U or the 20 amino acids + B Z X, both cases, '-', '*', '?', '.' where representable; names from ten classes: plain, hostile punctuation, 9/10/11 characters, long, all-digit / signed, format delimiters, non ASCII, residue-like, shared prefixes, one character) whose alphabet goalign detected, written by goalign's writer and read back by goalign's parser, for each of the 13 (format, option) pairs in which it is representable; sub-checks: direct round trip (+ explicit alphabet, FASTA ParseUnalign, Nexus datatype), exhaustive keyword table, plain/.gz/.xz files through OpenWriteFile/GetReader/ReadAlign, streams of 1..5 Phylip alignments (ParseMultiple, repeated Parse, ParseMultiAlignmentsAuto), ParseAlignmentAuto, chains of 2..5 conversions returning to the first format. Non-trivial = at least 2 rows and the writer's text really cut a row into several lines/blocks (Nexus/Stockholm, which never wrap: at least 2 rows and 2 columns with one of '-', '*', '?'); distinct = (format, names, residues). Sub-checks cli / cli-refused (cli.go): the same round trip through the command: one `goalign reformat fasta|phylip|nexus|clustal` process per case, built from the tree under test; the case index walks 5 sub command slots x 9 input modes (FASTA by default, -p, -p --input-strict, -x, -u, -k, --auto-detect over the 6 kinds of text, Phylip files with 2..4 alignments, --unaligned), everything else is drawn: input from a plain/.gz/.xz file or stdin, output to stdout or a plain/.gz/.xz -o file, --output-strict / --one-line / --no-block, --alphabet, --ignore-identical, --clean-names, -t, --seed, overridden / lower priority format flags; the output is read with the reference readers of ref.go and must spell the source alignment(s); cli-refused: 36 kinds of refused input (missing / empty file, unknown alphabet or flag, unwritable output, a text announced as another format, a text cut in the middle) must end with a message and a non zero status, never with a crash.")
 	mon.SetNote("assumptions", "representability (part of the quantifier): names are 1..64 printable non blank characters (ASCII 0x21-0x7E, a few non ASCII letters), pairwise distinct;; "+
 		"FASTA: a name may not START with '>' (the record marker; '>' inside a name is kept);; "+
 		"strict Phylip: names of at most 10 characters (the documentation says longer names are truncated, so they are outside the quantifier);; "+
@@ -970,7 +970,14 @@ func main() {
 		"duplicate-name policy of the parser drawn at random (names are distinct: it must not matter);; "+
 		"ReadAlign has no Stockholm nor strict Phylip mode (documented): those go through GetReader + parser;; "+
 		"trusted base: reference readers of ref.go (width agnostic, written from the format descriptions), compress/gzip and github.com/ulikunitz/xz readers (called directly, not through goalign) used to decode the written files;; "+
-		"layout is only checked where the documentation states it: --one-line (one line per sequence), --no-block (no blank inside the residues), 10 residue blocks otherwise, strict Phylip residues starting at column 11; line widths 80/60/50 are NOT demanded")
+		"layout is only checked where the documentation states it: --one-line (one line per sequence), --no-block (no blank inside the residues), 10 residue blocks otherwise, strict Phylip residues starting at column 11; line widths 80/60/50 are NOT demanded;; "+
+		"cli: the input text is written by goalign's own writers (checked by the other sub-checks, and read with the reference reader before it is used) and compressed here with compress/gzip / ulikunitz/xz;; "+
+		"cli: documented and demanded: reformat fasta takes the first alignment of a Phylip file, phylip and nexus all of them; reformat clustal says nothing: the first one or all are accepted;; "+
+		"cli: --input-strict is documented as 'only used with -p' and --auto-detect as 'phylip considered as not strict' while the command forwards --input-strict to the auto-detected Phylip parser: with both flags on a strict file the source alignment is demanded, except when a name fills the 10 character field (then the documented relaxed reading cannot succeed: an error is accepted too); a strict file with such a name read with --auto-detect alone is outside the documented use (only: no crash);; "+
+		"cli: --clean-names is only exercised with one isolated '(' ')' ',' or ':' between letters (the documentation does not say whether runs of special characters collapse);; "+
+		"cli: --output-strict truncates names to 10 characters (documented): exercised with ASCII names only;; "+
+		"cli: without --one-line a sequence of more than 250 residues must take several lines, without --no-block blocks are 10 residues long (the only observable meaning of the two flags); with -o <file> nothing may be written on stdout;; "+
+		"cli: an empty Phylip file is a list of no alignment: status 0 with nothing written or an error, never a crash; a text announced as another format must be refused when the announced format demands a first token the text does not have ('>', #NEXUS, CLUSTAL, # STOCKHOLM 1.0) or is FASTA announced as Phylip, otherwise only 'no crash' is demanded; a run of more than 120 s is a hang")
 	mon.SetNote("exhaustive_subspaces", fmt.Sprintf("keywords: %d reserved words x 3 spellings (upper, lower, capitalised) x 6 roles (name / whole residue row at the first, middle, last row) x 13 formats = %d cases, all run at both tiers", len(keywords), kwCount()))
 	for _, f := range fmtio.All {
 		mon.Floor("fmt:"+f.Name, 2000)
@@ -1024,6 +1031,7 @@ func main() {
 	mon.Floor("with-dot-residues", 300)
 	mon.Floor("rows:1", 300)
 	mon.Floor("witness", len(witnesses))
+	cliFloors()
 	mon.Main("C02", []mon.Sub{
 		{Name: "witness", Quick: len(witnesses), Thorough: len(witnesses), Run: runWitness},
 		{Name: "keywords", Quick: kwCount(), Thorough: kwCount(), Run: runKeywords},
@@ -1032,5 +1040,8 @@ func main() {
 		{Name: "auto", Quick: 12000, Thorough: 300000, Run: runAuto},
 		{Name: "chain", Quick: 6000, Thorough: 150000, Run: runChain},
 		{Name: "files", Quick: 2600, Thorough: 52000, Run: runFiles},
+		// the same round trip through the command `goalign reformat` (cli.go): one process per case
+		{Name: "cli", Quick: 270, Thorough: 6300, Run: runCli}, // 6 (140 at the thorough tier) rounds over 5 sub commands x 9 input modes
+		{Name: "cli-refused", Quick: 108, Thorough: 1440, Run: runCliRefused}, // 36 kinds of refused input x 3 (all 4 at the thorough tier) sub commands
 	})
 }
